@@ -146,12 +146,26 @@ def check(ctx):
                      'not ordered numerically by major then minor' % (got, a, b_, exp), detail={'returns': got})
     # parse_version rejects trailing garbage
     pf = tu.func('parse_version')
+    PV = cgsa.summarise(ctx, REL, 'parse_version')
+    vp = re.escape(PV.P(0))
+    ends = set(e.args[1][1:] for e in gsa.find(PV, 'call', r'^(strtol|g_ascii_strtoll|strtoul|g_ascii_strtoull)$') if len(e.args) > 1 and e.args[1].startswith('&'))
+    EQ1 = re.compile(r'^(?:strchr\(%s,46\) == (\w+)|(\w+) == strchr\(%s,46\))$' % (vp, vp))
+    EQ2 = re.compile(r'^(?:(\w+) == %s\+strlen\(%s\)|%s\+strlen\(%s\) == (\w+))$' % (vp, vp, vp, vp))
+    dotted = [a_ for a_ in PV.atoms() if re.match(r'^strchr\(%s,46\)$' % vp, a_)]
     falses = []
-    for n in C.walk(tu.body(pf)):
-        if n.get('kind') == 'ReturnStmt' and C.kids(n) and (C.int_value(C.kids(n)[0]) == 0):
-            g = C.guards(tu, n)
-            falses.append(nospace(' && '.join(('' if pol else '!') + '(' + tu.text_of(c) + ')' for c, pol, o in g)))
-    r1.check(any('dot!=end' in x for x in falses) and any('end!=(version+strlen(version))' in x for x in falses), 'parse_version rejects garbage', REL,
+    okpv = bool(ends) and bool(dotted)
+    for e in gsa.find(PV, 'return'):
+        if e.value in ('0', 'FALSE') or not gsa.can_hold(e.cond, dict((a_, True) for a_ in dotted)):
+            continue
+        # a "valid" answer for a version with a dot: the major number ends at the dot and the minor number at the end of the string
+        a1 = [a_ for a_ in gsa.atoms(e.cond) if EQ1.match(a_) and (EQ1.match(a_).group(1) or EQ1.match(a_).group(2)) in ends]
+        a2 = [a_ for a_ in gsa.atoms(e.cond) if EQ2.match(a_) and (EQ2.match(a_).group(1) or EQ2.match(a_).group(2)) in ends]
+        c1 = bool(a1) and not gsa.can_hold(gsa.assign(e.cond, dict((a_, True) for a_ in dotted)), dict((a_, False) for a_ in a1))
+        c2 = (bool(a2) and not gsa.can_hold(gsa.assign(e.cond, dict((a_, True) for a_ in dotted)), dict((a_, False) for a_ in a2))) or \
+            any(re.match(r"^\*%s==(0|'\\0')$" % re.escape(x), e.value.replace(' ', '')) for x in ends)
+        falses.append((e.value, e.when()[:160], c1, c2))
+        okpv = okpv and c1 and c2
+    r1.check(okpv and bool(falses), 'parse_version rejects garbage', REL,
              tu.line(pf), 'parse_version no longer rejects text between the major number and the dot / after the minor number: %s' % falses,
              detail=falses)
     # compare_candidate_reverse
